@@ -98,6 +98,48 @@ def _normalise_trailing_ifs(tree: ast.Module) -> None:
             n.body = conv(n.body)
 
 
+def _normalise_returned_temps(tree: ast.Module) -> None:
+    """`t = E` immediately followed by `return t`, with t bound once and read once in the function, is `return E`."""
+    for fn in ast.walk(tree):
+        if not isinstance(fn, (ast.FunctionDef, ast.AsyncFunctionDef)):
+            continue
+        stores, loads = {}, {}
+        for n in ast.walk(fn):
+            if isinstance(n, ast.Name):
+                d = stores if isinstance(n.ctx, (ast.Store, ast.Del)) else loads
+                d[n.id] = d.get(n.id, 0) + 1
+        # the returned temporary dies with the return: dropping its binding is safe unless the name is shared with
+        # another scope (global / nonlocal, or read by a nested function)
+        shared = set()
+        for n in ast.walk(fn):
+            if isinstance(n, (ast.Global, ast.Nonlocal)):
+                shared.update(n.names)
+            elif n is not fn and isinstance(n, (ast.FunctionDef, ast.AsyncFunctionDef, ast.Lambda)):
+                shared.update(x.id for x in ast.walk(n) if isinstance(x, ast.Name))
+
+        def conv(body):
+            i = 0
+            while i + 1 < len(body):
+                a, r = body[i], body[i + 1]
+                if isinstance(a, ast.Assign) and len(a.targets) == 1 and isinstance(a.targets[0], ast.Name) and isinstance(r, ast.Return) \
+                        and isinstance(r.value, ast.Name) and r.value.id == a.targets[0].id and r.value.id not in shared:
+                    new = ast.Return(value=a.value)
+                    ast.copy_location(new, a)
+                    new.end_lineno, new.end_col_offset = getattr(a, "end_lineno", None), getattr(a, "end_col_offset", None)
+                    body[i:i + 2] = [new]
+                i += 1
+            for st in body:
+                if isinstance(st, (ast.FunctionDef, ast.AsyncFunctionDef, ast.ClassDef)):
+                    continue
+                for fld in ("body", "orelse", "finalbody"):
+                    sub = getattr(st, fld, None)
+                    if isinstance(sub, list) and sub and isinstance(sub[0], ast.stmt):
+                        conv(sub)
+                for h in getattr(st, "handlers", []) or []:
+                    conv(h.body)
+        conv(fn.body)
+
+
 def _normalise_local_annotations(tree: ast.Module) -> None:
     """Inside function bodies, `x: T = v` is the same statement as `x = v` for every rule
     here: rewrite it to an Assign (the annotation is kept in `.ann`), so that adding or
@@ -271,6 +313,7 @@ class Index:
                     raise AnalysisError(f"cannot parse {path}: {e}") from e
                 _normalise_local_annotations(tree)
                 _normalise_namespace_aliases(tree)
+                _normalise_returned_temps(tree)
                 if os.environ.get("VT_NO_TRAILING_IF_NORM") != "1":
                     _normalise_trailing_ifs(tree)
                 mi = ModuleInfo(modname, path, os.path.relpath(path, self.root), tree, src)
